@@ -8,6 +8,7 @@ package jsonpath
 // external JSONPath library and structpb data; its result is named by the abstract
 // spec function pathLookup and is always a JSON kind.
 //@ func TravelerPathLookup
+//@   vars traveler path namespace field doc res err
 //@   trusted
 //@   pure
 //@   ensures val: result == pathLookup(traveler, path)
@@ -18,17 +19,20 @@ package jsonpath
 // GetJSONPath maps a field reference to the JSONPath it denotes; named by the spec
 // function jpath. TRUSTED here (string manipulation through strings.Split/Join).
 //@ func GetJSONPath
+//@   vars path parts found v
 //@   trusted
 //@   pure
 //@   ensures def: result == jpath(path)
 
 //@ func TravelerPathExists
+//@   vars traveler path namespace field doc err
 //@   trusted
 //@   pure
 //@   ensures def: result <==> pathExists(traveler, path)
 
 // GetNamespace only splits its argument.
 //@ func GetNamespace
+//@   vars path namespace parts
 //@   property C14 C02
 //@   pure
 
@@ -36,15 +40,18 @@ package jsonpath
 // documents / travelers or update the documents of the traveler they are given; they do
 // not touch channels or anything else.
 //@ func SelectTravelerFields
+//@   vars t keys includePaths excludePaths key exclude namespace path out mark cde ode k v
 //@   trusted
 //@   modifies MapD. MapV. MapN SH. alloc H.gdbi. Box.
 //@   requires nonnil: t != nil
 //@   ensures nonnil: result != nil
 //@ func RenderTraveler
+//@   vars traveler template elem elem elem o k v val o i val
 //@   trusted
 //@   modifies MapD. MapV. MapN SH. alloc
 //@   requires nonnil: traveler != nil
 //@ func TravelerSetValue
+//@   vars traveler path val namespace field doc
 //@   trusted
 //@   modifies MapD. MapV. MapN SH. alloc
 //@   requires nonnil: traveler != nil
